@@ -49,6 +49,7 @@ func main() {
 		rep = suiteText(*tier, *seed, *model)
 	case "C13":
 		rep = suiteMutate(*tier, *seed, *model)
+		rep.Merge(suiteMutateCollections(*tier, *seed))
 	case "C12":
 		rep = suiteScript(*tier, *seed, *model)
 	case "C03":
@@ -67,6 +68,8 @@ func main() {
 	case "C09":
 		rep = suiteParse("C09", *tier, *seed, *model, map[string]bool{"position": true})
 		rep.Merge(suiteChunk("C09", "position", *tier, *seed, *model))
+	case "C13c":
+		rep = suiteMutateCollections(*tier, *seed)
 	case "C11r":
 		rep = suiteReflect(*tier, *seed)
 	case "C06x":
